@@ -25,12 +25,20 @@ HEX = b'0123456789abcdef'
 B64 = b'ABCDEFGHIJKLMNOPQRSTUVWXYZabcdefghijklmnopqrstuvwxyz0123456789+/'
 
 
-def table(m, fn_prefix, suffix):
-    for gname, g in m.globals.items():
+def table(m, fn_prefix, suffix, all_matches=False):
+    """A constant table (list of integers) that is a static local of the named function - of any instantiation of it, when the
+    function is a template.  A table computed at run time has no initialiser to compare: not found."""
+    base = fn_prefix.rstrip('(')
+    pat = re.compile(r'(^|[\s:])' + re.escape(base.split('::')[-1]) + r'(<[^()]*>)?\(')
+    found = []
+    for gname, g in sorted(m.globals.items()):
         d = g.get('dem', '')
-        if d.startswith(fn_prefix) and d.endswith('::' + suffix) and 'init' in g:
-            return gname, g['init']
-    return None, None
+        init = g.get('init')
+        if base.split('::')[0] in d and pat.search(d) and d.endswith('::' + suffix) and isinstance(init, list) and init and all(isinstance(x, int) for x in init):
+            found.append((gname, init))
+    if all_matches:
+        return found
+    return found[0] if found else (None, None)
 
 
 def signed32(v):
@@ -43,7 +51,6 @@ def tables(run, m):
     gb, b64_chars = table(m, '_ST_PRIVATE::b64_encode(', 'b64_chars')
     gdh, hex_values = table(m, '_ST_PRIVATE::hex_decode(', 'hex_values')
     gdb, b64_values = table(m, '_ST_PRIVATE::b64_decode(', 'b64_values')
-    run.need(any([hex_chars, b64_chars, hex_values, b64_values]), 'no codec table found (hex_chars, b64_chars, hex_values, b64_values)')
     for nm, got, want in (('hex_chars', hex_chars, HEX), ('b64_chars', b64_chars, B64)):
         n += 1
         if not got:
@@ -175,26 +182,22 @@ def case_split(st, lin, inputs, expect, mask=0xFF, limit=1 << 17):
     for a in deps:
         if a not in inputs:
             return None, 'depends on %s, which is not an input unit of this group' % (a if isinstance(a, str) else a[0],)
-    if 256 ** len(deps) > limit:
-        return None, 'depends on %d input units: case split too large' % len(deps)
-    env = {}
-
-    def rec(i):
-        if i == len(deps):
-            try:
-                v = eval_lin(lin, env)
-            except KeyError as e:
-                return None, 'operator not evaluable: %s' % (e,)
-            if (v & mask) != (expect(dict((inputs[a], env[a]) for a in deps)) & mask):
-                return False, dict((inputs[a], env[a]) for a in deps)
-            return True, None
-        for b in range(256):
-            env[deps[i]] = b
-            r = rec(i + 1)
-            if r[0] is not True:
-                return r
-        return True, None
-    return rec(0)
+    # only the unit values this path admits (a path may have split on the sign or range of a unit)
+    from .common import unit_models
+    envs, mixed = unit_models(st, deps, limit=limit)
+    if envs is None:
+        return None, 'depends on %d input units: %s' % (len(deps), mixed)
+    for env in envs:
+        try:
+            v = eval_lin(lin, env)
+        except KeyError as e:
+            return None, 'operator not evaluable: %s' % (e,)
+        named = dict((inputs[a], env[a]) for a in deps)
+        if (v & mask) != (expect(named) & mask):
+            if mixed:
+                return None, 'differs for input units %s, which the facts of the path may exclude' % fmt_units(named)
+            return False, named
+    return True, None
 
 
 def enc_unit(I, st, v, table_obj, alphabet, names, want_bits, want_fn):
@@ -204,7 +207,15 @@ def enc_unit(I, st, v, table_obj, alphabet, names, want_bits, want_fn):
         return None, 'stored value not tracked'
     inputs = dict((a, nm) for a, nm in names.items())
     sa = v.lin.single_atom()
-    if sa is not None and sa[1] == 1 and sa[2] == 0 and isinstance(sa[0], tuple) and sa[0][0] == 'load' and table_obj and sa[0][1] == 'G:' + table_obj:
+    def is_alphabet(obj):
+        if not (isinstance(obj, str) and obj.startswith('G:')):
+            return False
+        if table_obj and obj == 'G:' + table_obj:
+            return True
+        g_ = I.m.globals.get(obj[2:]) or {}
+        init = g_.get('init')
+        return bool(g_.get('const')) and isinstance(init, list) and list(init[:len(alphabet)]) == list(alphabet)
+    if sa is not None and sa[1] == 1 and sa[2] == 0 and isinstance(sa[0], tuple) and sa[0][0] == 'load' and is_alphabet(sa[0][1]):
         idx = sa[0][2]
         got = B.BitEval(st, names).lin_bits(idx, 8)
         if got == want_bits:
@@ -227,20 +238,44 @@ def fmt_units(w):
     return ', '.join('%s=0x%02X' % (k, v) for k, v in sorted(w.items()))
 
 
+def encoder_variants(m, F, stem):
+    """The functions that hold the encoding loop: _ST_PRIVATE::<stem>(char*, <units> const*, size_t), plain or any instantiation of a
+    template of that name; variants without a loop of their own (forwarders to another variant) are left to the variant they call."""
+    from ..interp import loop_info
+    pat = re.compile(r'^(?:[\w:<>,\* ]+\s)?_ST_PRIVATE::%s(?:<[^()]*>)?\(char\*, [\w ]+ const\*, unsigned long\)$' % stem)
+    out = []
+    for x in F.lib:
+        f = m.func(x)
+        if pat.match(f.dem):
+            loops, _b = loop_info(f)
+            if loops:
+                out.append(f)
+    return sorted(out, key=lambda f: f.dem)
+
+
 def encoders(run, m, F, E, g):
     n = 0
-    # hex
-    f = [m.func(x) for x in F.lib if m.func(x).dem == '_ST_PRIVATE::hex_encode(char*, void const*, unsigned long)']
-    run.need(f, 'hex_encode core not found')
-    f = f[0]
+    hv = encoder_variants(m, F, 'hex_encode')
+    run.need(hv, 'hex_encode core not found')
+    for f in hv:
+        n += hex_encoder(run, m, F, E, g, f, 'hex_encode' if len(hv) == 1 else short(f.dem, 80))
+    bv = encoder_variants(m, F, 'b64_encode')
+    run.need(bv, 'b64_encode core not found')
+    for f in bv:
+        n += b64_encoder(run, m, F, E, g, f, 'b64_encode' if len(bv) == 1 else short(f.dem, 80))
+    return n
+
+
+def hex_encoder(run, m, F, E, g, f, label):
+    n = 0
     I = Interp(m, F, E, EncHooks())
     st = base(False)
     outs = I.run(I.start(f, [PtrV('OUT'), PtrV('IN'), IntV(64, Lin.atom('n'), 'u')], st))
     its = [o for o in outs if o.kind == 'backedge']
     problems = []
     und = []
-    if len(its) != 1:
-        und.append('%d iteration paths' % len(its))
+    if not its:
+        und.append('no iteration path explored')
     for o in its:
         view = group_view(o.st, f)
         if view is None or view['pbase'] is None:
@@ -262,11 +297,12 @@ def encoders(run, m, F, E, g):
                 und.append('digit %d: %s' % (k, why))
         check_advance(o.st, view, 1, 2, 'hex_encode', problems, und)
     n += 1
-    run.ob('R14.2', 'hex_encode', False if problems else (None if und else True), problems[0] if problems else (und[0] if und else 'high nibble then low nibble index the digit table; 1 byte in, 2 digits out'), loc=fn_loc(f))
-    # base64
-    f = [m.func(x) for x in F.lib if m.func(x).dem == '_ST_PRIVATE::b64_encode(char*, void const*, unsigned long)']
-    run.need(f, 'b64_encode core not found')
-    f = f[0]
+    run.ob('R14.2', label, False if problems else (None if und else True), problems[0] if problems else (und[0] if und else 'high nibble then low nibble index the digit table; 1 byte in, 2 digits out'), loc=fn_loc(f))
+    return n
+
+
+def b64_encoder(run, m, F, E, g, f, label):
+    n = 0
     GROUP = [pad(X('b0', 7, 2), 8), pad(cat(X('b0', 1, 0), X('b1', 7, 4)), 8), pad(cat(X('b1', 3, 0), X('b2', 7, 6)), 8), pad(X('b2', 5, 0), 8)]
     TAIL2 = [GROUP[0], GROUP[1], pad(cat(X('b1', 3, 0), [0, 0]), 8), '=']
     TAIL1 = [GROUP[0], pad(cat(X('b0', 1, 0), [0, 0, 0, 0]), 8), '=', '=']
@@ -326,7 +362,7 @@ def encoders(run, m, F, E, g):
         if k not in seen:
             problems.append('no path for the %s form' % k)
     n += 1
-    run.ob('R14.2', 'b64_encode', False if problems else (None if und else True), problems[0] if problems else und[0] if und else 'full group and both tails regroup the input bits MSB-first into 6-bit indices; \'=\' padding as RFC 4648', loc=fn_loc(f))
+    run.ob('R14.2', label, False if problems else (None if und else True), problems[0] if problems else und[0] if und else 'full group and both tails regroup the input bits MSB-first into 6-bit indices; \'=\' padding as RFC 4648', loc=fn_loc(f))
     return n
 
 
